@@ -145,6 +145,13 @@ def r7(ctx, only=None):
                             tgt = al[0]
                     if (dotted(tgt) or "").startswith("self."):
                         own.append((f"{cname}.{mname}", dotted(tgt), x))
+                # ... and no data of one frame is remembered for the next: outside __init__ a codec stores only constants on
+                # itself (a log-once flag), never a value taken from a frame or a message
+                for x in walk_no_nested(fnode):
+                    if isinstance(x, (ast.Assign, ast.AnnAssign, ast.AugAssign)) and getattr(x, "value", None) is not None:
+                        for t in (x.targets if isinstance(x, ast.Assign) else [x.target]):
+                            if (dotted(t) or "").startswith("self.") and not isinstance(x.value, ast.Constant):
+                                own.append((f"{cname}.{mname}", dotted(t) + " (remembered between frames)", x))
         ctx.check(not own, R, f"{m.name.split('pyairtouch.')[1]}:codec-objects-hold-no-buffers", m, (own[0][2] if own else None), "encode()/decode() build their result in fresh objects: nothing kept on the shared codec instance is filled in place", "; ".join(f"{q} writes into {a_} (line {x.lineno}): bytes already handed out change when the next message is encoded" for q, a_, x in own[:3])) if (own or any(c.endswith("Encoder") or c.endswith("Decoder") for c in m.classes)) else None
         mutable_globals = set()
         for gname, gnode in m.assign_nodes.items():
@@ -358,6 +365,31 @@ def check_sentinel(ctx, lab, fname, fs, spec, v, smap, m, dnode):
         val = float(res[1]) if res[0] == "num" else res[1:]
         found = f"raw code 0x{raw:X} (with neighbouring bits pattern {combo:#x}) decodes to {val} instead of absent; {len(bad)} of {tried} sentinel inputs are misread"
     ctx.check(not bad, R4, f"{lab}:{fname}:not-available", m, dnode, f"vendor not-available code ({na['desc']}) decodes to absent or is rejected, whatever the unrelated bits of the same bytes hold", found)
+    # the converse: a code the vendor defines as a value is never turned into "absent" - whatever the rest of the record holds
+    # (all other bits 0 / all other bits 1; fields the vendor makes the value depend on are set as required)
+    width = len(field_bits)
+    na_set = set(na["raw"])
+    wit = [r for r in (0, 1, (1 << width) // 3, (1 << (width - 1)) - 1, 100, 200) if 0 <= r < (1 << width) and r not in na_set][:4]
+    lost = []
+    for raw in wit:
+        if "max_valid" in na and raw > na["max_valid"]:
+            continue
+        for fill in (0, 1):
+            assign = dict(req)
+            for i, p in enumerate(field_bits):
+                assign[p] = (raw >> i) & 1
+
+            def src2(name, k, assign=assign, fill=fill):
+                p = abs_pos(name, k, smap)
+                return assign.get(p, fill)
+
+            try:
+                res = absval.concretize(v, src2, ctx.repo)
+            except absval.Undefined:
+                continue
+            if res[0] == "none":
+                lost.append((raw, fill))
+    ctx.check(not lost, R4, f"{lab}:{fname}:defined-codes-are-values", m, dnode, "a code the vendor defines as a value decodes to that value, whatever the other bits of the record hold (absent is for the not-available codes only)", f"raw code 0x{lost[0][0]:X} decodes to absent when the other bits of the record are all {lost[0][1]}" if lost else "")
 
 
 # ------------------------------------------------------------------------------------------ R5 strides
